@@ -217,6 +217,11 @@ def run(C, R):
         for path in E.run(clear['path']):
             if path.exit != 'return':
                 continue
+            foreign = [e for e in path.events if e['k'] == 'call' and 'RingBuf' in e.get('callee', '')
+                       and e.get('name') not in ('is_empty', 'pop', 'len', 'capacity', 'can_push')]
+            if foreign:
+                raise CheckerError('cannot judge %s: it empties the buffer through RingBuf::%s, an operation this rule has '
+                                   'no schema for (it knows the is_empty / pop loop)' % (clear['path'], foreign[0]['name']))
             bev = [e for e in path.events if e['k'] == 'call' and e.get('name') in ('is_empty', 'pop', 'len')
                    and 'RingBuf' in e.get('callee', '')]
             if not clears_ and not bev:
